@@ -159,12 +159,14 @@ var (
 	goDeferName = []string{"Done", "Release", "Flush"}
 	goAssignFn  = []string{"NewThing", "Open", "Build"}
 	goReturnFn  = []string{"Get", "Size", "Load"}
-	goMethNames = []string{"String", "Len", "Push", "Pop", "Reset", "Area", "Save"}
+	goMethNames = []string{"String", "Len", "Push", "Pop", "Reset", "Area", "Save", "Run", "Process", "helper"} // the last three are also names of free functions
 	goFuncNames = []string{"NewStack", "main", "helper", "Process", "init", "buildIndex", "Run", "parse"}
 	goPkgNames  = []string{"main", "stack", "domain", "svc"}
 	goImports   = []GoImport{{Path: "fmt"}, {Path: "sync"}, {Path: "os"}, {Path: "net/http"}, {Path: "container/list", Alias: "l"},
 		{Path: "time", Alias: "."}, {Path: "embed", Alias: "_"}, {Path: "github.com/acme/widget/pkg/core"}, {Path: "example.org/lib/v2", Alias: "lib"},
-		{Path: "github.com/modernizing/coca/pkg/domain/core_domain"}, {Path: "example.org/proj/internal/util"}, {Path: "strings"}}
+		{Path: "github.com/modernizing/coca/pkg/domain/core_domain"}, {Path: "example.org/proj/internal/util"}, {Path: "strings"},
+		// paths that share their last element with another import of the pool
+		{Path: "text/template"}, {Path: "html/template", Alias: "htmpl"}, {Path: "example.org/proj/core", Alias: "pcore"}, {Path: "example.org/other/v2", Alias: "other"}}
 )
 
 func drawType(t *rapid.T) typeSpec {
@@ -203,6 +205,7 @@ type fieldSpec struct {
 	Type  typeSpec
 	Group bool // declared together with the previous field: "a, b T"
 	Tag   bool
+	Embed bool // struct fields only: an embedded field (no name); identifier, pointer and selector types only
 }
 
 type stmtSpec struct {
@@ -227,6 +230,9 @@ type funcSpec struct {
 type structSpec struct {
 	Fields  []fieldSpec
 	Methods []funcSpec
+	// NameLike: 1 = the name of the previous type of the file followed by "Item" (one name is a prefix of the other),
+	// 2 = "Sub" followed by the name of the previous type (one name is a suffix of the other)
+	NameLike int
 }
 
 type ifaceSpec struct {
@@ -245,6 +251,9 @@ type goSpec struct {
 	GroupTypes bool  // type ( ... ) declaration group
 	Order      []int // sort keys of the top-level declarations; empty = types, then methods, then functions
 	Comments   bool
+	// SharedName: the first struct of the file is called Config, whatever the prefix: files of different
+	// directories of a project may each declare a type of that name
+	SharedName bool
 }
 
 var fieldSpecGen = rapid.Custom(func(t *rapid.T) fieldSpec {
@@ -273,11 +282,22 @@ var funcSpecGen = rapid.Custom(func(t *rapid.T) funcSpec {
 })
 
 var structSpecGen = rapid.Custom(func(t *rapid.T) structSpec {
-	return structSpec{Fields: rapid.SliceOfN(fieldSpecGen, 0, 4).Draw(t, "fields"), Methods: rapid.SliceOfN(funcSpecGen, 0, 3).Draw(t, "methods")}
+	ss := structSpec{Fields: rapid.SliceOfN(fieldSpecGen, 0, 4).Draw(t, "fields"), Methods: rapid.SliceOfN(funcSpecGen, 0, 3).Draw(t, "methods")}
+	for i := range ss.Fields {
+		ss.Fields[i].Embed = rapid.IntRange(0, 6).Draw(t, "embeddedField") == 6
+	}
+	if rapid.IntRange(0, 3).Draw(t, "nameLikePrevious") == 3 {
+		ss.NameLike = rapid.IntRange(1, 2).Draw(t, "nameLikeForm")
+	}
+	return ss
 })
 
 var ifaceSpecGen = rapid.Custom(func(t *rapid.T) ifaceSpec {
-	return ifaceSpec{Methods: rapid.SliceOfN(rapid.IntRange(0, 6), 1, 3).Draw(t, "ifaceMethods"), Params: rapid.IntRange(0, 2).Draw(t, "ifaceParams")}
+	is := ifaceSpec{Methods: rapid.SliceOfN(rapid.IntRange(0, 6), 1, 3).Draw(t, "ifaceMethods"), Params: rapid.IntRange(0, 2).Draw(t, "ifaceParams")}
+	if rapid.IntRange(0, 7).Draw(t, "emptyInterface") == 7 {
+		is.Methods = nil // type P interface{}: listed once, with an empty method set
+	}
+	return is
 })
 
 func drawGoSpec(t *rapid.T) goSpec {
@@ -294,6 +314,7 @@ func drawGoSpec(t *rapid.T) goSpec {
 		g.Order = rapid.SliceOfN(rapid.IntRange(0, 9), 12, 12).Draw(t, "declarationOrder")
 	}
 	g.Comments = rapid.IntRange(0, 3).Draw(t, "comments") == 3
+	g.SharedName = rapid.IntRange(0, 3).Draw(t, "sharedTypeName") == 3
 	return g
 }
 
@@ -522,8 +543,20 @@ func renderGo(g goSpec, prefix string, fileName string) GoFile {
 
 	// names first, so that field types can refer to any struct of the file
 	var structNames, ifaceNames []string
-	for range g.Structs {
-		structNames = append(structNames, names.next("Rec"))
+	for si, ss := range g.Structs {
+		name := names.next("Rec")
+		switch {
+		case si == 0 && g.SharedName:
+			name = "Config"
+			feats["type_name_used_in_several_files"] = true
+		case si > 0 && ss.NameLike == 1:
+			name = structNames[si-1] + "Item"
+			feats["type_name_is_prefix_or_suffix_of_another"] = true
+		case si > 0 && ss.NameLike == 2:
+			name = "Sub" + structNames[si-1]
+			feats["type_name_is_prefix_or_suffix_of_another"] = true
+		}
+		structNames = append(structNames, name)
 	}
 	for range g.Ifaces {
 		ifaceNames = append(ifaceNames, names.next("Port"))
@@ -544,6 +577,14 @@ func renderGo(g goSpec, prefix string, fileName string) GoFile {
 		for i := 0; i < len(ss.Fields); i++ {
 			fs := ss.Fields[i]
 			text, tt, tv := renderType(fs.Type, structNames)
+			if fs.Embed && (fs.Type.Kind == 0 || fs.Type.Kind == 1 || fs.Type.Kind == 3) && !usedF["embedded "+tv] && tv != st.Name {
+				// an embedded field: no name in the source, the empty name in the model (as for unnamed parameters)
+				usedF["embedded "+tv] = true
+				body.WriteString("\t" + text + "\n")
+				st.Fields = append(st.Fields, Prop{Name: "", TypeType: tt, TypeValue: tv})
+				feats["embedded_field"] = true
+				continue
+			}
 			fname := goFieldName[fs.Name%len(goFieldName)]
 			for usedF[fname] {
 				fname += "X"
@@ -626,8 +667,11 @@ func renderGo(g goSpec, prefix string, fileName string) GoFile {
 		if fname != "main" && fname != "init" {
 			fname += prefix // unique across the files of a project; the case of the first letter is kept
 		}
-		for usedFn[fname] {
+		for usedFn[fname] && fname != "init" { // a file may declare init any number of times
 			fname += "Two"
+		}
+		if usedFn[fname] {
+			feats["init_declared_twice"] = true
 		}
 		usedFn[fname] = true
 		text, gf := renderFunc(fs, fname, "", structNames, feats)
@@ -751,46 +795,111 @@ func judgeStructs(ds []core_domain.CodeDataStruct, files []GoFile, exactNames bo
 	if msg := sameMultiset("data structures (structs and interfaces)", listed, declared); msg != "" {
 		return msg
 	}
+	// a name may be declared in several files of a project (different directories): every declaration must have
+	// its own entry, so the declarations of one name are paired one-to-one with the entries of that name
+	judges := map[string][]func(d core_domain.CodeDataStruct) string{}
+	var order []string
+	add := func(name string, judge func(d core_domain.CodeDataStruct) string) {
+		if judges[name] == nil {
+			order = append(order, name)
+		}
+		judges[name] = append(judges[name], judge)
+	}
 	for _, f := range files {
 		for _, s := range f.Structs {
-			d := byName[s.Name][0]
-			if msg := sameSeq("fields of struct "+s.Name, propsOf(d.InOutProperties), propStrings(s.Fields)); msg != "" {
-				return msg
-			}
-			var methods []string
-			byMethod := map[string]GoFunc{}
-			for _, fn := range f.Funcs {
-				if fn.Recv == s.Name {
-					methods = append(methods, fn.Name)
-					byMethod[fn.Name] = fn
-				}
-			}
-			var got []string
-			for _, m := range d.Functions {
-				got = append(got, m.Name)
-			}
-			if msg := sameMultiset("methods of struct "+s.Name, got, methods); msg != "" {
-				return msg
-			}
-			for _, m := range d.Functions {
-				if msg := judgeCalls("method "+s.Name+"."+m.Name, m.FunctionCalls, byMethod[m.Name]); msg != "" {
-					return msg
-				}
-			}
+			f, s := f, s
+			add(s.Name, func(d core_domain.CodeDataStruct) string { return judgeStruct(d, f, s) })
 		}
 		for _, it := range f.Ifaces {
-			d := byName[it.Name][0]
-			var got []string
-			for _, p := range d.InOutProperties {
-				got = append(got, p.ParamName)
-			}
-			if msg := sameMultiset("method set of interface "+it.Name, got, it.Methods); msg != "" {
-				return msg
-			}
-			if len(d.Functions) != 0 {
-				return fmt.Sprintf("interface %s is listed with methods of some struct: %d function(s)", it.Name, len(d.Functions))
-			}
+			it := it
+			add(it.Name, func(d core_domain.CodeDataStruct) string { return judgeIface(d, it) })
 		}
+	}
+	for _, name := range order {
+		if msg := pairUp(len(judges[name]), len(byName[name]), func(i, j int) string { return judges[name][i](byName[name][j]) }); msg != "" {
+			return msg
+		}
+	}
+	return ""
+}
+
+// pairUp looks for a one-to-one pairing of n declarations with m entries (n == m, both small) such that
+// judge(i, j) == "" for every pair; it returns "" or the first message met for the first declaration that cannot be paired.
+func pairUp(n, m int, judge func(i, j int) string) string {
+	used := make([]bool, m)
+	firstMsg := make([]string, n)
+	var try func(i int) bool
+	try = func(i int) bool {
+		if i == n {
+			return true
+		}
+		for j := 0; j < m; j++ {
+			if used[j] {
+				continue
+			}
+			msg := judge(i, j)
+			if msg != "" {
+				if firstMsg[i] == "" {
+					firstMsg[i] = msg
+				}
+				continue
+			}
+			used[j] = true
+			if try(i + 1) {
+				return true
+			}
+			used[j] = false
+		}
+		return false
+	}
+	if try(0) {
+		return ""
+	}
+	for i := 0; i < n; i++ {
+		if firstMsg[i] != "" {
+			return firstMsg[i]
+		}
+	}
+	return "the declarations of one name cannot be paired with the entries of that name"
+}
+
+func judgeStruct(d core_domain.CodeDataStruct, f GoFile, s GoStruct) string {
+	if msg := sameSeq("fields of struct "+s.Name, propsOf(d.InOutProperties), propStrings(s.Fields)); msg != "" {
+		return msg
+	}
+	var methods []string
+	byMethod := map[string]GoFunc{}
+	for _, fn := range f.Funcs {
+		if fn.Recv == s.Name {
+			methods = append(methods, fn.Name)
+			byMethod[fn.Name] = fn
+		}
+	}
+	var got []string
+	for _, m := range d.Functions {
+		got = append(got, m.Name)
+	}
+	if msg := sameMultiset("methods of struct "+s.Name, got, methods); msg != "" {
+		return msg
+	}
+	for _, m := range d.Functions {
+		if msg := judgeCalls("method "+s.Name+"."+m.Name, m.FunctionCalls, byMethod[m.Name]); msg != "" {
+			return msg
+		}
+	}
+	return ""
+}
+
+func judgeIface(d core_domain.CodeDataStruct, it GoIface) string {
+	var got []string
+	for _, p := range d.InOutProperties {
+		got = append(got, p.ParamName)
+	}
+	if msg := sameMultiset("method set of interface "+it.Name, got, it.Methods); msg != "" {
+		return msg
+	}
+	if len(d.Functions) != 0 {
+		return fmt.Sprintf("interface %s is listed with methods of some struct: %d function(s)", it.Name, len(d.Functions))
 	}
 	return ""
 }
@@ -822,11 +931,9 @@ func judgeContainer(c core_domain.CodeContainer, f GoFile, module string) string
 	}
 	// top-level functions: the members of type "method"
 	var gotFn, wantFn []string
-	byName := map[string]GoFunc{}
 	for _, fn := range f.Funcs {
 		if fn.Recv == "" {
 			wantFn = append(wantFn, fn.Name)
-			byName[fn.Name] = fn
 		}
 	}
 	var nodes []core_domain.CodeFunction
@@ -839,12 +946,25 @@ func judgeContainer(c core_domain.CodeContainer, f GoFile, module string) string
 	if msg := sameMultiset("top-level functions", gotFn, wantFn); msg != "" {
 		return msg
 	}
-	for _, fn := range nodes {
-		want := byName[fn.Name]
-		if msg := sameSeq("parameters of function "+fn.Name, propsOf(fn.Parameters), propStrings(want.Params)); msg != "" {
-			return msg
+	// a name declared several times (init): the declarations are paired one-to-one with the entries of that name
+	wantsOf := map[string][]GoFunc{}
+	nodesOf := map[string][]core_domain.CodeFunction{}
+	for _, want := range f.Funcs {
+		if want.Recv == "" {
+			wantsOf[want.Name] = append(wantsOf[want.Name], want)
 		}
-		if msg := judgeCalls("function "+fn.Name, fn.FunctionCalls, want); msg != "" {
+	}
+	for _, fn := range nodes {
+		nodesOf[fn.Name] = append(nodesOf[fn.Name], fn)
+	}
+	for _, name := range sorted(wantFn) {
+		ws, ns := wantsOf[name], nodesOf[name]
+		if msg := pairUp(len(ws), len(ns), func(i, j int) string {
+			if msg := sameSeq("parameters of function "+name, propsOf(ns[j].Parameters), propStrings(ws[i].Params)); msg != "" {
+				return msg
+			}
+			return judgeCalls("function "+name, ns[j].FunctionCalls, ws[i])
+		}); msg != "" {
 			return msg
 		}
 	}
@@ -929,7 +1049,11 @@ func goClasses(f GoFile) (classes []string, nonTrivial bool, canon string) {
 			withMethods++
 		}
 	}
-	withMethods += len(f.Ifaces) // an interface always has >= 1 method here
+	for _, it := range f.Ifaces {
+		if len(it.Methods) > 0 {
+			withMethods++
+		}
+	}
 	nonTrivial = len(f.Structs)+len(f.Ifaces) >= 2 && withMethods >= 2
 	classes = append(classes, fmt.Sprintf("structs=%d", len(f.Structs)), fmt.Sprintf("interfaces=%d", len(f.Ifaces)))
 	free := 0
